@@ -27,6 +27,10 @@ m = {
 }
 for pid in sorted(registry.CHECKS):
     c = registry.CHECKS[pid]
+    keys = registry.keys_of(pid)
+    under = " Functions under sidecar contract in this check (all obligations regenerated from /repo on every run): %s." % ", ".join(
+        k.replace("doctrans.", "").replace(":", ".") for k in keys) if keys else ""
+    c = dict(c, text=c["text"] + under)
     m["checks"].append({
         "property_id": pid,
         "quick_cmd": "./check %s --tier quick" % pid,
